@@ -3,7 +3,7 @@ Real callVariant vs the Lean definition Spec.callVariant on generated inputs (de
 clusters, both strands, coding/non-coding, cds_start_NF, mRNA_end_NF, selenoproteins);
 node-collapsing parameters must not change the output."""
 from . import common, cv_checks
-from .cv_checks import KF_EXC, KF_NOLA, KF_WIDE
+from .cv_checks import KF_EXC, KF_NOLA, KF_WIDE, KF_NESTED
 
 
 def judge(ctx, res, stream):
@@ -29,7 +29,8 @@ def judge(ctx, res, stream):
                 f'{len(core_missing)} peptide(s) of the definition are missing from the callVariant '
                 f'FASTA, e.g. {sorted(core_missing)[:3]}',
                 cv_checks.replay_of(r, kind='missing', missing=sorted(core_missing)),
-                finding_key=KF_WIDE if cv_checks.wide_lookahead(r['desc']['kw']['cleavage_rule']) else None)
+                finding_key=KF_WIDE if cv_checks.wide_lookahead(r['desc']['kw']['cleavage_rule'])
+                else (KF_NESTED if cv_checks.has_nested(r) else None))
         elif exc_missing:
             ctx.add_violation(
                 f'peptide(s) {sorted(exc_missing)[:3]} missing: cleavage-exception context split across '
@@ -76,6 +77,18 @@ def run(ctx: common.Ctx):
                             dict(base, exception=None, enzymes=cv_checks.enzymes_all(), stages=True))
     judge(ctx, res, 'all-enzymes')
     cv_checks.judge_checkpoints(ctx, res, 'missing')
+    stats3 = dict(ctx.coverage['worker_stats'])
+    # every record of the case on or next to ONE special codon (Sec / first codon / stop codon /
+    # exon junction), half of them exactly on its edges; Sec termination mostly on
+    res = cv_checks.explore(ctx, ctx.n(300, 5000),
+                            dict(base, exception=None, per_tx=(1, 4), special=['sec', 'sec', 'start', 'stop', 'junction'], sec_near_start=0.6, coding_only=True))
+    judge(ctx, res, 'special-codons')
+    stats4 = dict(ctx.coverage['worker_stats'])
+    # small records INSIDE the stretch a splicing Insertion / Substitution inserts
+    res = cv_checks.explore(ctx, ctx.n(60, 1500), dict(base, exception=None, per_tx=(1, 4), as_frac=1.0, nested_frac=1.0, stages=True))
+    judge(ctx, res, 'nested-in-splicing')
+    cv_checks.judge_checkpoints(ctx, res, 'missing')
+    stats5 = dict(ctx.coverage['worker_stats'])
     for kind, n in (('fusion', ctx.n(90, 1500)), ('circ', ctx.n(90, 1500))):
         bres = cv_checks.explore_backbone(ctx, kind, n, dict(exception=None))
         for r in bres:
@@ -95,7 +108,8 @@ def run(ctx: common.Ctx):
                     f'FASTA, e.g. {sorted(missing)[:3]}', dict(r['desc'], kind='missing-' + kind,
                                                                missing=sorted(missing)[:20]))
     ctx.coverage['worker_stats'] = {'trypsin-noexc': stats, 'trypsin-exc': stats2,
-                                    'all-enzymes': ctx.coverage['worker_stats']}
+                                    'all-enzymes': stats3, 'special-codons': stats4,
+                                    'nested-in-splicing': stats5}
     ctx.assumptions += [
         'PARTIAL: graph construction (TVG/PVG) is not modelled; it is tied to the definition only by '
         'this differential. Alternative-splicing records are in (without nested intronic variants); fusion and circRNA backbones have their own streams (one fusion / one circRNA per input, assembled by the harness from the record fields).',
